@@ -70,4 +70,13 @@ def gen_wordlist(rng, with_tokens=False, with_cogid=True, max_langs=5, max_conce
                 idx += 1 if contiguous else rng.choice([1, 1, 1, 2, 7])
     if len(d) < 3:
         return gen_wordlist(rng, with_tokens, with_cogid, max_langs, max_concepts, min_langs, case_variants, extra_cols, contiguous)
+    if rng.random() < 0.4:
+        # the rows in another order than concept by concept (language by language, or mixed): the same ids, other rows under them
+        keys = [k for k in d if k != 0]
+        rows = [d[k] for k in keys]
+        if rng.random() < 0.5:
+            rows.sort(key=lambda r: str(r[0]))      # language by language
+        else:
+            rng.shuffle(rows)
+        d = dict([(0, d[0])] + list(zip(keys, rows)))
     return d
